@@ -107,6 +107,7 @@ def replay_concrete(module, fn, part, args, kwargs):
     env = dict(os.environ)
     env["XSV_TWIN"] = "0"
     env["XSDATA_SRC"] = SRC
+    env["PYTHONHASHSEED"] = "0"  # the same hash seed as the workers: a counterexample that depends on set / dict order must replay
     payload = json.dumps({"module": module, "fn": fn, "part": part, "args": args, "kwargs": kwargs})
     p = subprocess.run([PY, os.path.join(VERIF, "vlib", "replay.py")], input=payload, capture_output=True, text=True, env=env, cwd=VERIF, timeout=600)
     for line in p.stdout.splitlines():
